@@ -25,7 +25,7 @@ EXTENDS Naturals, Sequences, FiniteSets, TLC
 CONSTANTS MaxLoads, MaxWrites, Defects, ShareDefaults
 
 VARIABLES hist
-Comps == {"a", "b"}
+Comps == {"a", "b"}          \* the receivers rt/a and rt/b
 
 \* [s: setting, d: default, alts: values a document may write, g: reference group ("" = value typed)]
 Table ==
